@@ -108,3 +108,7 @@ CLAIMED["C14"] = (
  "table agreement with the Go standard library sources in GOROOT: one literal/constant evaluator (go/constant over go/ast) applied to the package-level constants and literal tables of each ported package (Wa side read with the repository's parser, value expressions re-read as Go expressions) and of the Go package of the same import path; frozen list of the instances that were equal when the rule was armed",
  "Decides that 214 named constants and literal tables of the ported packages (bit tables, UTF-8/UTF-16 classification constants, CRC polynomials, hash primes, hex tables, calendar tables, float formatting tables ...) still have Go's values. Does not decide any function body or the behaviour of the ports on inputs.",
  "trusted: go/parser, go/constant, GOROOT sources of the installed Go 1.23.5 as the oracle, the repository's Wa parser as front end")
+CLAIMED["C13"] = (
+ "structural lint over the Wa source of the runtime map (parsed with the repository's parser; token-level mirror comparison under the left/right exchange with commutativity and child-slot normalisation; orientation table of comparison arms; payload-field coverage of the successor transfer; entry-point routing) plus an emission-sequence rule on the generated struct comparator",
+ "Decides that the fix-up arms and the two rotations of the red-black tree are mirror images, that insert and search descend by the same key order, that deleting a two-child node moves every payload field of the successor and compacts the unlinked node, that the six runtime entry points exist with the back end's arity and forward to the method of their role, and that struct keys are compared field by field. Does not decide the rebalancing algorithm itself or iteration under mutation.",
+ AST_BASE)
